@@ -1359,6 +1359,11 @@ fn builtin_pcap_read_all(args: Vec<Rc<Object>>) -> Result<Rc<Object>, String> {
                         if e.kind() == io::ErrorKind::UnexpectedEof {
                             break;
                         }
+                        // A malformed record: the packets read before it are still
+                        // returned and the next read reports the error
+                        if !packets.is_empty() && f.has_failed() {
+                            break;
+                        }
                         // For other IO errors, return the error
                         return Ok(Rc::new(Object::Err(ErrorObj::IO(e))));
                     }
